@@ -336,6 +336,9 @@ func (st sqlStyle) stmt(s Stmt) string {
 	case "dropNotNull":
 		return at + st.kw("ALTER COLUMN") + " " + st.id(s.A) + " " + st.kw("DROP NOT NULL") + ";"
 	case "commentOn":
+		if s.B == "" { // IS NULL removes the comment
+			return st.kw("COMMENT ON COLUMN") + " " + st.id(s.T) + "." + st.id(s.A) + " " + st.kw("IS NULL") + ";"
+		}
 		return st.kw("COMMENT ON COLUMN") + " " + st.id(s.T) + "." + st.id(s.A) + " " + st.kw("IS") + " " + sqlStr(s.B) + ";"
 	}
 	panic("stmt kind " + s.Kind)
